@@ -94,6 +94,59 @@ CHECKS['C18'] = dict(
     note='Trusted: CrossHair+z3, the sequentialiser and cooperative primitives in vlib/seqz (counterexamples replay in the sequentialised model, not on real threads), WeakSet replaced by a set. Preemption only between statements of the encoded functions.',
     technique='sequentialisation of real code + symbolic schedule (CrossHair/z3), preemption-bounded',
     design='3/C18')
+CHECKS['C08'] = dict(
+    category='fault_enumeration',
+    text='Bounded symbolic execution (CrossHair/z3) of the real plug lifecycle through Test.execute (PlugManager.initialize_plugs/tear_down_plugs/provide_plugs, two-stage initialisation around test_start, teardown in finally) with instrumented plug classes: which constructor raises, per-plug tearDown ok/raises/hangs, test_start variant and the deviating phase are symbolic; a monitor on the plug event log checks one construction per class, same instance under the requested name, exactly one tearDown per constructed instance after the last phase and before the callbacks, outcome unaffected by tearDown faults, constructor failure -> ERROR with no further phase, only test_start plugs exist during test_start.',
+    note='Trusted: CrossHair+z3, synchronous thread stubs (a hanging tearDown = tear-down thread that stays alive and cannot be joined without timeout), FakeClock. 3 plug classes, fixed plug-to-phase assignment.',
+    technique='symbolic execution (CrossHair/z3) with symbolic fault positions and an event-log monitor',
+    design='3/C08')
+CHECKS['C09'] = dict(
+    category='other',
+    text='Bounded symbolic execution (CrossHair/z3) of the real Test.execute contract: for programs of family T with a symbolic deviating phase, symbolic subsets of raising callbacks, four test_start variants, repeated execution and an overlapping execute() issued from inside a phase body or an output callback: every callback called exactly once in order with the identical, final record (outcome/end time/phase records complete, dut_id, metadata, no running phase), return value iff PASS, executor/SIGINT registration/record handler gone afterwards, overlap refused with InvalidTestStateError.',
+    note='Trusted: CrossHair+z3, synchronous thread stubs (executor body runs when execute() waits), FakeClock. Single OS thread: the overlapping call is re-entrant. KeyboardInterrupt path not covered.',
+    technique='symbolic execution (CrossHair/z3) of Test.execute with a finality/exactly-once monitor',
+    design='3/C09')
+CHECKS['C10'] = dict(
+    category='other',
+    text='Bounded symbolic execution (CrossHair/z3) of the real incremental base-type caches against a from-scratch rendering (deep copy with every cache dropped): symbolic operation histories inside a phase (scalar/dimensioned sets with transforms, attachments, reads of the live view; int and IEEE float values) and whole records produced by trees of family T (every record list must be present and equal its fresh rendering); plus a lemma that data.convert_to_base_types(json_safe=True) only yields strict-JSON-representable trees for the stated value family.',
+    note='Trusted: CrossHair+z3, the standard json module (strict encoding / decode equality follow from the lemma), fake TestState for in-phase histories. Log records are C19; attachments byte round trip through base64 is not decided.',
+    technique='symbolic execution (CrossHair/z3) vs from-scratch renderer; conversion lemma',
+    design='3/C10')
+CHECKS['C11'] = dict(
+    category='other',
+    text='Bounded symbolic execution (CrossHair/z3): (a) derive/decorate histories (<=2 operations chosen by symbolic selectors from with_args, with_plugs, PhaseOptions, measures, diagnose, plug, wrapping into sequence/group/subtest, collection.with_args/with_plugs) followed by a mutation of the derived object: deep structural snapshot of the original unchanged and no mutable container shared; (b) the same Test executed twice with independent symbolic scripts: the second record equals what the specification interpreter derives from the second script alone (incl. conditional validators) and the declared tree is unchanged.',
+    note='Trusted: CrossHair+z3, snapshot/aliasing functions in props/C11.py, spec interpreter. One known finding (nested collections share phase objects). Two tests running concurrently in one process are NOT decided (see DESIGN.md).',
+    technique='symbolic execution (CrossHair/z3) with structural snapshots; second-run vs specification',
+    design='3/C11')
+CHECKS['C19'] = dict(
+    category='other',
+    text='(E2) z3 string/regex query on the live RECORD_LOGGER_RE: a record named openhtf.test_record.<u>[.<suffix>] passes TestUidFilter(v) iff u == v for all dot-free uids up to the bound (models replayed through the real filter); (E1) bounded symbolic execution of real handler add/remove/emit with real logging dispatch over symbolic histories of two runs (start/stop/log through record, phase, plug and framework loggers): each run records exactly its own and framework messages once, in order, with level/name/file/line/millis, no handler remains after the end; MAC redaction over symbolic octets/case/context.',
+    note='Trusted: CrossHair+z3, sre->z3 translation (validated against re on a solver-chosen name), FakeClock. Single thread; uids without dots.',
+    technique='SMT string/regex query from live pattern + symbolic execution of logging histories',
+    design='3/C19')
+CHECKS['C12'] = dict(
+    category='model_checking',
+    text='Bounded model checking of the real KillableThread/kill/join_or_die logic: the thread body, the kill request and the joiner are coroutines generated from the live source (sequentialisation) on cooperative primitives with virtual time; '
+         'the step at which kill is delivered, the body shape (finishing, raising, swallowing the termination, blocked) and the join timeout are symbolic and CrossHair/z3 exhausts the paths: kill of a not-started or finished thread is a no-op, a delivered kill ends the thread through ThreadTerminationError exactly once, '
+         '_thread_exc/_thread_finished run, join_or_die returns or raises by its deadline.',
+    note='Trusted: CrossHair+z3, the sequentialising transformer and cooperative primitives (vlib/seqz), asynchronous exception delivery modelled as a pending exception raised at the next statement boundary of the target. Outside: CPython C-level delivery (PyThreadState_SetAsyncExc latency), real time.',
+    technique='sequentialisation of real threading code + symbolic schedule (CrossHair/z3)',
+    design='8/C12')
+CHECKS['C04'] = dict(
+    category='model_checking',
+    text='Bounded model checking of the real abort path: TestExecutor._execute_abortable_sequence/_execute_node/abort/..., PhaseExecutor.execute_phase/_execute_phase_once/abort/reset_stop and PhaseExecutorThread are sequentialised from the live source; '
+         'test programs (setup/main/teardown groups) run as coroutines on cooperative primitives while one or two abort() calls arrive at symbolic steps under a symbolic preemption; after every schedule: the outcome is ABORTED iff an abort arrived before the end, '
+         'no main-phase body starts after abort() returned, teardown of every entered group runs exactly once, a second abort skips at most the current teardown phase, and the executor always terminates.',
+    note='Trusted: CrossHair+z3, vlib/seqz transformer and primitives, phase bodies as scripted coroutines with virtual durations. One class of schedule violates the statement on the pinned tree and is listed as known finding D13 (abort lost between the executor check and the phase start). Outside: >2 aborts, plugs tearDown under abort, real signal delivery.',
+    technique='sequentialisation of the real executor abort path + symbolic schedule (CrossHair/z3)',
+    design='8/C04')
+CHECKS['C14'] = dict(
+    category='model_checking',
+    text='Bounded model checking of the real ADB stream multiplexer: AdbStreamTransport (_read_messages_until_true, _handle_message, enqueue_message, read, write, _send_command, close), AdbConnection (read_for_stream, _handle_message_for_stream, close_stream_transport) and AdbStream.read/write are sequentialised from the live source and run on cooperative Lock/RLock/Condition/Queue with virtual time; '
+         'two streams with one reader each under every merge of the device packets, and a writer plus a reader on one stream with device bytes at every position (before/after the OKAY), under a symbolic preemption (two in the short scenario and in the thorough tier) with bounded time skips: per-stream exact in-order bytes, one OKAY per device WRTE with the right ids, CLSE answered once, chunks <= maxdata with one outstanding WRTE, no deadlock, no write waiting out its timeout after its OKAY arrived.',
+    note='Trusted: CrossHair+z3, vlib/seqz transformer and primitives, reactive message-level device (framing is C13, handshake C15). Found and fixed D14 (lost wake-up). Outside: 3 streams, longer scripts, >2 preemptions, the randomised part of the quantifier, real-thread timing.',
+    technique='sequentialisation of the real stream multiplexer + symbolic schedule (CrossHair/z3)',
+    design='8/C14')
 NA_REASON = {}
 DEFAULT_NA = 'check not built yet in this round (work in progress; see DESIGN.md section 6 for the plan)'
 
